@@ -252,6 +252,15 @@ static uint16_t local_add(CG *cg, const char *name, int line) {
     return slot;
 }
 
+/* Leave a lexical scope: the slots stay allocated, but the names declared
+ * since `first` no longer resolve (spec 8.2: an inner let shadows an outer
+ * variable only inside its block). */
+static void locals_leave_scope(CG *cg, uint16_t first) {
+    for (uint16_t i = first; i < cg->local_count; i++) {
+        cg->locals[i].name = (char *)"";
+    }
+}
+
 /* Find the struct type name for a local variable (for field access resolution) */
 static const char *local_struct_type(CG *cg, const char *name) {
     for (int i = cg->local_count - 1; i >= 0; i--) {
@@ -1989,8 +1998,10 @@ static void compile_expr(CG *cg, ASTNode *node) {
             /* Pop the union value before executing body */
             emit_op(cg, OP_POP);
 
-            /* Compile arm body */
+            /* Compile arm body; the binding is visible in this arm only */
+            uint16_t arm_first = cg->local_count - ((binding && binding[0] != '\0') ? 1 : 0);
             compile_expr(cg, node->as.match_expr.arm_bodies[i]);
+            locals_leave_scope(cg, arm_first);
 
             /* Statement-block arm bodies don't leave a value on the stack.
              * Push void so match consistently produces exactly one value,
@@ -2202,13 +2213,16 @@ static void compile_stmt(CG *cg, ASTNode *node) {
         }
 
         cg->loop_depth--;
+        locals_leave_scope(cg, arr_slot);
         break;
     }
 
     case AST_BLOCK: {
+        uint16_t scope_first = cg->local_count;
         for (int i = 0; i < node->as.block.count; i++) {
             compile_stmt(cg, node->as.block.statements[i]);
         }
+        locals_leave_scope(cg, scope_first);
         break;
     }
 
